@@ -63,5 +63,16 @@ CHECKS = {
                  "before IDLE on every path and arms only the onDisconnection notification; no timer callback leaves its own fired handle "
                  "for later cancel(); keepalive loop started only under keepalive != 0. Silence over virtual time is not observed.",
          "note": BASE_NOTE, "technique": "typestate analysis of timer handles over trigger contexts + lifecycle fact table"},
+ "C04": {"text": "Path rules on the handshake and the loss closure of all four protocol classes: connect() accepting paths (one CONNECT, then "
+                 "CONNECTING, one timeout of `keepalive or 10`, request recorded, pending Deferred returned); the connect Deferred fired only "
+                 "in the CONNACK handler and the timeout closure, exactly once on every handler path incl. exceptional ones (bounded table "
+                 "index, no None/fired handles), with the right value and state per return code, timeout cancelled first; loss closure: "
+                 "clean-up, then IDLE, then exactly one onDisconnection(reason) iff a handler is set. Orderings as behaviour not explored.",
+         "note": BASE_NOTE, "technique": "all-paths event counting/ordering + hazard rule for unguarded indexing + handle typestate"},
+ "C15": {"text": "Structural clauses of keepalive on every path: periodic call created/started only on an accepted CONNACK under keepalive != 0 "
+                 "with period = CONNECT's keepalive (alias, unmodified); PINGREQ routine writes the stored bytes once and arms one deadline with "
+                 "the same keepalive whose callback always closes; PINGRESP cancels+clears and is safe on None; loss stops/cancels both handles; "
+                 "PINGREQ written only from the periodic call/ping() while CONNECTED. All timing statements are NOT decided.",
+         "note": BASE_NOTE + " Timing clauses are outside the family.", "technique": "alias (copy) propagation of the keepalive value + who-may-write + handle typestate"},
 }
 NOT_APPLICABLE = {}
